@@ -70,6 +70,7 @@ fn check_u(a: &[u64], b: &[u64]) -> Verdict {
         .class_if(crossing, "carry_or_borrow_crosses_digit")
         .class_if(la == lb, "len_equal")
         .class_if(la != lb, "len_unequal")
+        .class_if(ord != Ordering::Equal, "biguint_underflow")
         .class_if(ord == Ordering::Equal, "a_eq_b")
         .class_if(sum.to_u64_digits().len() > la.max(lb), "sum_grows")
         .class_if(ord != Ordering::Equal && { let d = if ord == Ordering::Greater { ra.sub(&rb) } else { rb.sub(&ra) }; d.to_u64_digits().len() < la.max(lb) }, "difference_shrinks"))
